@@ -14,7 +14,8 @@ RULE = ("hyp: sequence (N<=60 quick / 120 thorough, all composition classes) x t
         "the single value of the isolated window seq[ks:ks+w] with blobLen=w and is unchanged by mutating residues outside that window; WF = "
         "Shannon entropy (base = alphabet size) of the window after the harness's own alphabet reduction, 0 for homopolymeric windows, "
         "invariant under permuting the window. The profile under test is computed after a generated warm-up history (other API calls incl. complexity / reduction calls with other user alphabets on the same object) in half of the cases. 5% of the cases are 140-320 residue sequences with small windows and steps 1..13 (more than 128 windows); user alphabets may carry extra non-amino-acid keys (which can never apply to a valid sequence and must not change the alphabet size). Non-trivial: K>=2 and some window with >=2 distinct reduced letters; distinct by the whole case.")
-ASSUMPTIONS = ["user alphabets have at least two image letters (base-1 entropy is undefined; stated in the property's quantifier)",
+ASSUMPTIONS = ["when a user alphabet is given the alphabetSize argument is ignored (documented), so the harness may pass any predefined size with it",
+               "user alphabets have at least two image letters (base-1 entropy is undefined; stated in the property's quantifier)",
                "window, step and word sizes are positive integers", "entropy tolerance 1e-9"]
 TECHNIQUE = "Hypothesis property testing + small exhaustive grid; oracle = shape/range invariants, locality metamorphic relations (isolated window, outside mutation, window permutation), independent Shannon entropy with independently transcribed alphabet partitions"
 LEVEL_TEXT = "Exploration over (sequence, type, alphabet, window, step, word) tuples with all windows/steps enumerated for short sequences."
@@ -31,7 +32,7 @@ def my_reduce(seq, size, user):
 
 def call(seq, case, blob=None, step=None, warm=False):
     o = util.spw(seq, case) if warm else util.sp(seq)
-    kw = dict(complexityType=case["type"], alphabetSize=case.get("size", 20), blobLen=blob if blob is not None else case["w"],
+    kw = dict(complexityType=case["type"], alphabetSize=case.get("size_with_user", case.get("size", 20)), blobLen=blob if blob is not None else case["w"],
               stepSize=step if step is not None else case["s"], wordSize=case.get("word", 3))
     if case.get("user"):
         kw["userAlphabet"] = dict(case["user"])
@@ -135,7 +136,12 @@ def hyp_case(draw, max_len):
             # extra keys (ambiguity codes, lower case) mapping to letters no standard residue maps to
             for k in draw(st.lists(st.sampled_from(["B", "Z", "X", "U", "O", "J", "a", "k"]), min_size=1, max_size=3, unique=True)):
                 user[k] = draw(st.sampled_from(list(ref.AA)))
+        if draw(st.integers(0, 5)) == 0:
+            perm2 = draw(st.permutations(list(ref.AA)))
+            user = {a: perm2[i] for i, a in enumerate(ref.AA)}        # a bijection: nothing is merged
         case["user"] = user
+        if draw(st.booleans()):
+            case["size_with_user"] = draw(st.sampled_from(SIZES))     # must be ignored when a user alphabet is given
     else:
         case["size"] = draw(st.sampled_from(SIZES))
     r = draw(st.integers(0, 11))
